@@ -152,7 +152,8 @@ Definition cstep (c : cluster) (a : action) : result cluster :=
           match cn_pending cn with
           | j :: rest =>
               if cn_up cn then
-                let evs := handshake_events c i j (cn_node cn) now in
+                (* no proxy for an instance regarded ISOLATED: the request is dropped *)
+                let evs := if not_isolated (cn_node cn) j then handshake_events c i j (cn_node cn) now else [] in
                 Ok (set_node c i (mkCnode (cn_node cn) true (cn_cnt cn) (cn_inbox cn ++ evs) rest))
               else Ok c
           | [] => Ok c
